@@ -40,7 +40,7 @@ PLAN = {
             "trusted_extra": ["the Go memory model, sync, sync/atomic, sync.Map and channel semantics are axioms of the footprint semantics",
                               "the general theorem 'lock discipline implies data-race freedom' (lockset argument) is assumed, not proved",
                               "the footprint table is hand-written from the source and tied to the code by the race detector only"]},
-    "C13": {"runs": [eng("xfer", "c13", 100, 1500)],
+    "C13": {"runs": [eng("xfer", "c13", 100, 1500), eng("xfer", "c14", 60, 600)],
             "trusted_extra": ["encoding/gob is modelled as the identity on {K,V,E,C} records decoded into fresh variables"]},
     "C14": {"runs": [eng("xfer", "c14", 60, 600)],
             "trusted_extra": ["net/http, encoding/gob, reflect and the FNV fingerprint of a type are trusted; the fingerprint is an arbitrary function in the theorems"]},
@@ -49,7 +49,7 @@ PLAN = {
     "C07": {"runs": [seq("c07", 240, 6000)],
             "explanation": "refinement of the slot-keyed store to a plain map with per-entry expiry, for every hash function and every op sequence"},
     "C09": {"runs": [seq("c09", 200, 4000), eng("fo", "c04", 150, 3000), eng("inval", "c15", 100, 1000)]},
-    "C10": {"runs": [seq("c10", 200, 5000)],
+    "C10": {"runs": [seq("c10", 200, 5000), eng("fo", "c06", 120, 2000)],
             "trusted_extra": ["float64 evaluation of the jitter product is idealised by exact rationals; the correspondence allows |T|*2^-40+1 ns slack"]},
     "C11": {"runs": [seq("c11", 200, 3000), eng("xfer", "c13", 40, 400), eng("linz", "c08cleanup", 800, 8000)]},
     "C12": {"runs": [seq("c12", 200, 3000)],
